@@ -139,6 +139,7 @@ def mark_orphans(mismatches):
 
 def short_hand(rec, upto=None):
     """a readable rendering of a hand for samples / replay files"""
+    rec = dict(rec, spec=dict(rec.get('spec') or {}))
     steps = rec['steps'] if upto is None else rec['steps'][:upto]
     calls = []
     for ev in steps:
@@ -213,3 +214,34 @@ def replay_record(rp: dict, level=1):
         if ev['out'].startswith('Other:'):
             break
     return rec
+
+
+def repo_hands(run: Run):
+    """driver D-repo: the hands the repository's own tests play, recorded by harness/repo_plugin.py while pytest runs them"""
+    import subprocess
+    import sys
+    repo = os.environ.get('POKERKIT_REPO', '/repo')
+    out = os.path.join(tlc.OUT, f'repo_traces_{run.pid}.ndjson')
+    os.makedirs(tlc.OUT, exist_ok=True)
+    env = dict(os.environ, PYTHONPATH=tlc.VERIF, POKERKIT_REPO=repo, VERIF_REPO_TRACES=out, PYTHONDONTWRITEBYTECODE='1')
+    cmd = ['/venv/bin/python', '-m', 'pytest', '-q', '-p', 'no:cacheprovider', '-p', 'harness.repo_plugin', '--timeout=900',
+           'pokerkit/tests/test_state.py', 'pokerkit/tests/test_games.py', 'pokerkit/tests/test_papers.py', 'pokerkit/tests/test_rules.py',
+           'pokerkit/tests/test_wsop', 'pokerkit/tests/test_notation.py']
+    p = subprocess.run(cmd, cwd=repo, env=env, capture_output=True, text=True, timeout=1800)
+    if not os.path.exists(out):
+        raise tlc.MachineryError('the recording plugin produced no traces:\n' + (p.stdout + p.stderr)[-1500:])
+    recs = [json.loads(line) for line in open(out)]
+    meta = json.load(open(out + '.meta'))
+    for r in recs:
+        mechanisms(run, r)
+    run.count('repo_test_hands', len(recs))
+    run.extra['repo_tests'] = {'pytest_tail': (p.stdout.strip().splitlines() or [''])[-1], 'hands_recorded': len(recs), 'not_recorded': meta['skipped']}
+    return recs
+
+
+def repo_part(run: Run, prop: str):
+    recs = repo_hands(run)
+    if len(recs) < 100:
+        raise tlc.MachineryError(f'only {len(recs)} hands recorded from the repository tests')
+    validate(run, recs, f'{prop}_repository-tests', prop)
+    run.sample({'from_repository_test': recs[0]['spec'].get('test'), 'hand': short_hand(recs[0])}, limit=8)
